@@ -3,8 +3,9 @@
    atomic): it is sampled by the race suite under the Go race detector, not proved.
    Deadlock half, on the small-step bus model (every schedule = every list of actors, every program): what is proved
    here are the facts that exclude the ways a bus operation can block for ever -
-     - a handler mutex is held by at most one goroutine, and whoever holds it still has the matching deferred unlock
-       (or the recover frame that produces it) in its code: no orphaned Sequential lock (C03_seq_lock_owner);
+     - a handler mutex is held by at most one goroutine (C03_seq_lock_owner), and whoever is recorded as its holder still
+       has the matching deferred unlock (or the recover frame that produces it) in its code: no orphaned Sequential
+       lock (C03_no_orphaned_handler_lock); the holder of the store mutex can always step (C03_store_lock_holder_runs);
      - Wait - and the goroutine Shutdown waits on - is blocked only while a spawned delivery has not finished, and the
        counter it waits on is exactly the number of such deliveries (C03_wait_blocks_only_on_running_deliveries);
      - the only instructions that can block at all are taking a Sequential handler's mutex, taking the store mutex,
@@ -24,6 +25,20 @@ Print Assumptions C03_seq_lock_owner.
 Theorem C03_wait_blocks_only_on_running_deliveries : forall P cfg s, reachable P cfg s -> inflight s = total (code s) /\ winv s.
 Proof. exact inflight_counts. Qed.
 Print Assumptions C03_wait_blocks_only_on_running_deliveries.
+
+(* no orphaned handler mutex: over every schedule of every program, a Sequential handler's mutex that is held is held
+   by a goroutine that still carries the matching deferred unlock (or the recover frame that produces it) - a panic,
+   a cancelled context or a re-entrant call never leaves it locked for ever *)
+Theorem C03_no_orphaned_handler_lock : forall P cfg s, reachable P cfg s ->
+  forall rid a, assoc_get (seqlocks s) rid = Some a -> exists c, assoc_get (code s) a = Some c /\ 0 < held rid c.
+Proof. exact no_orphaned_handler_lock. Qed.
+Print Assumptions C03_no_orphaned_handler_lock.
+
+(* the store mutex is held only across the store's Append: its holder can always take its next step *)
+Theorem C03_store_lock_holder_runs : forall P cfg s, reachable P cfg s ->
+  forall a, store_mu s = Some a -> exists s' ls, mstep P cfg s a = Some (s', ls).
+Proof. exact store_lock_holder_runs. Qed.
+Print Assumptions C03_store_lock_holder_runs.
 
 (* every instruction other than the five listed is enabled in every state *)
 Theorem C03_only_these_block : forall P cfg s a i rest,
